@@ -349,7 +349,8 @@ pub fn check(world: &World, j: &Judgement, rr: &RunResult, cfg: &OracleCfg) -> V
                     bad.push(format!("model {:?} != {:?}", r.model, m));
                 }
             }
-            if !r.user.contains(trim_ascii(cond)) {
+            // verbatim: the condition as written in the attribute, blanks at its ends included
+            if !r.user.contains(cond) {
                 bad.push(format!("condition {:?} not verbatim in user message {:?}", cond, r.user));
             }
             if !r.user.contains(&content) {
